@@ -226,7 +226,7 @@ def run(ck, tier, rng):
                     ck.sample({"form": form, "faults": g.faults, "members": [n for n, _ in written]})
             if valid:
                 oracle(ck, written, r, meta, rec)
-        concrete_before = len(ck.violations) + len(ck.known_hits)
+        concrete_before = len(ck.violations)
         hyp = {"wf": 0, "wf_and_no_default_clash": 0, "valid_stream_not_wf": 0}
         covered = {"theorem_hypotheses_met": 0}
         diffs = 0
